@@ -51,6 +51,9 @@ func TestVerifC08(t *testing.T) {
 	thorough := vhThorough()
 
 	for _, ops := range vh08Corpus() {
+		if vhsTooStuck() {
+			break
+		}
 		for _, wga := range []bool{true, false} {
 			out.Emit(vhsReplay("c08", ops, wga, nil, true, -1, 0, false))
 			out.Emit(vhsReplay("c08", ops, wga, nil, true, -1, 0, true))
@@ -68,7 +71,7 @@ func TestVerifC08(t *testing.T) {
 	if thorough {
 		nhist = 800
 	}
-	for i := 0; i < nhist; i++ {
+	for i := 0; i < nhist && !vhsTooStuck(); i++ {
 		wga := r.Intn(2) == 0
 		n := 20 + r.Intn(20)
 		nname := 3
